@@ -181,8 +181,33 @@ RetOK(op, a, exp, obs) ==
          /\ exp.hasprof => obs.new = exp.new /\ obs.both = exp.both
     [] op = "ListMutRef" -> {<<obs.muts[k].r, obs.muts[k].p, obs.muts[k].a>> : k \in 1..Len(obs.muts)} = exp.muts
                             /\ Len(obs.muts) = Cardinality(exp.muts)
-    [] op = "CountProfile" -> {<<obs.prof[k].c, obs.prof[k].n>> : k \in 1..Len(obs.prof)} = exp.prof
-                              /\ Len(obs.prof) = Cardinality(exp.prof)
+    \* one row per distinct character, all rows as long as the alignment, and case-folding the rows gives the folded counts
+    \* (that the rows themselves are case-folded is the separate conjunct "folded")
+    [] op = "CountProfile" -> /\ Cardinality({obs.prof[k].c : k \in 1..Len(obs.prof)}) = Len(obs.prof)
+                              /\ \A k \in 1..Len(obs.prof) : Len(obs.prof[k].n) = Len(obs.prof[1].n)
+                              /\ FoldObservedProfile(obs.prof) = exp.prof
+    [] OTHER -> TRUE
+
+\* ---- the command-line front ---------------------------------------------------------------------------
+\* `goalign <command>` reads the receiver from a file, applies the operation it fronts and prints the outcome:
+\* from the heap's point of view a read-only step that creates one object -- what the operation leaves in the
+\* receiver (or the object it creates), read back with the receiver's alphabet and the default duplicate policy --
+\* and that fails exactly when the operation fails.  R is the transition of the fronted operation.
+CliObj(x, o) == [x EXCEPT !.pol = 0, !.al = o.al,
+                          !.len = IF x.k = "align" THEN (IF Len(x.rows) = 0 THEN -1 ELSE Len(x.rows[1].s)) ELSE x.len]
+CliOf(o, R) ==
+  IF R.err THEN Fail(o)
+  ELSE Res(FALSE, o, <<CliObj(IF Len(R.new) > 0 THEN R.new[1] ELSE R.o, o)>>, R.ret, R.j)
+\* operations that have a command-line twin in the harness (harness/heap_cli.go)
+CliOps == {"RemoveGapSites", "RemoveCharacterSites", "RemoveMajorityCharacterSites", "RemoveGapSeqs", "RemoveCharacterSeqs",
+           "ReverseComplement", "Sort", "Consensus", "DiffWithFirst", "ReplaceMatchChars", "Translate", "TranslateByReference",
+           "Deduplicate", "Compress", "Mask", "MaskOccurences", "MaskUnique", "SubAlign", "Replace"}
+
+CliCreators == {"Consensus", "SubAlign"}      \* the command prints the object the operation creates, not the receiver
+
+\* the clauses of the properties that a return value meets only in case-folded form
+FoldedOK(op, a, exp, obs) ==
+  CASE op = "CountProfile" -> {<<obs.prof[k].c, obs.prof[k].n>> : k \in 1..Len(obs.prof)} = exp.prof
     [] OTHER -> TRUE
 
 \* ---- relational operations: is the observed outcome allowed? ---------------------------------------
